@@ -288,18 +288,26 @@ func (ctx *checkCtx) report(total *JobResult, update, verbose bool, start time.T
 	newFailing := map[string][]*ObRecord{}
 
 	replayDir := filepath.Join(verifDir(), "replays", ctx.prop)
+	knownCount := map[string]int{}
+	knownFirst := map[string]string{}
 
 	for _, r := range total.Records {
 		seen[r.Name] = true
 		if r.Kind == "known-canary" {
 			// sat (proved cover) or unknown: the defect is still there
 			if r.Status != "vacuous" && (r.KnownProp == "" || r.KnownProp == ctx.prop) {
-				knownLines = append(knownLines, fmt.Sprintf("KNOWN-FINDING: property=%s %s [%s]", ctx.prop, r.Known, strings.TrimSuffix(r.Name, "#known-canary")))
+				knownCount[r.Known]++
+				if knownCount[r.Known] == 1 {
+					knownFirst[r.Known] = strings.TrimSuffix(r.Name, "#known-canary")
+				}
 			}
 			continue
 		}
 		if r.Kind == "known-site" {
-			knownLines = append(knownLines, fmt.Sprintf("KNOWN-FINDING: property=%s %s [%s]", ctx.prop, r.Known, r.Name))
+			knownCount[r.Known]++
+			if knownCount[r.Known] == 1 {
+				knownFirst[r.Known] = r.Name
+			}
 			continue
 		}
 		if r.Cover {
@@ -349,6 +357,13 @@ func (ctx *checkCtx) report(total *JobResult, update, verbose bool, start time.T
 				}
 			}
 		}
+	}
+	for what, n := range knownCount {
+		extra := ""
+		if n > 1 {
+			extra = fmt.Sprintf(" (+%d more obligations)", n-1)
+		}
+		knownLines = append(knownLines, fmt.Sprintf("KNOWN-FINDING: property=%s %s [%s%s]", ctx.prop, what, knownFirst[what], extra))
 	}
 	// baseline obligations that vanished: if the same function now has new
 	// undischarged obligations of the same kind, the proof is broken.
